@@ -45,14 +45,14 @@ def main(tier, seed):
         if kind == 'harness-failure':
             ctx.inconcl('harness failure: ' + exc[-300:]); return
         if kind == 'oom':
-            ctx.bump('allocation_limit_aborts'); return
+            ctx.bump('allocation_limit_aborts'); return True
         m = re.search(r'VERIF-HANG (\w+)\((.*)$', exc, re.M)
         fn = names[case % nfun] if names else '?'
         if m:
             # a wall-clock limit is not a verdict: O(n) algorithms inside libgsl with orders like 2^31-1 are slow, not wrong
             ctx.bump('calls_exceeding_8s_inconclusive')
             ctx.addset('examples_of_calls_exceeding_8s', m.group(0)[11:200])
-            return
+            return True
         ctx.violation('%s:%s' % (kind, fn), 'GSL binding %s: %s %s' % (fn, kind, (m.group(0) if m else top)), dict(cmd=cmd, report=exc[-3000:]))
         return
         ctx.violation('%s:%s' % (kind, top), 'GSL binding died on case %d: %s in %s' % (case, kind, top), dict(cmd=cmd, report=exc))
